@@ -134,41 +134,51 @@ variable {V : Type}
 statement after the loop.  `first` is `first_iteration`. -/
 def scanLoop (o : VOps V) (x : V) : Bool → List (Con V) → Except Err Bool
   | _, [] => .ok false
-  | _, [last] =>
-      -- after the loop: `nxt_comp in (">", ">=") and version > nxt_constraint.version`
-      match last with
-      | .mk c v => .ok (c.isLower && o.gt x v)
-      | .star => .ok false
-  | first, cur :: nxt :: rest =>
-      let firstHit : Bool :=
-        first && (match cur with | .mk c v => c.isUpper && o.lt x v | .star => false)
-      if firstHit then .ok true
-      else if cur.isLower && nxt.isUpper then
-        match cur, nxt with
-        | .mk _ u, .mk _ w =>
-            if o.gt x u && o.lt x w then .ok true else scanLoop o x false (nxt :: rest)
-        | _, _ => .error .InvalidConstraintsError
-      else if cur.isUpper && nxt.isLower then scanLoop o x false (nxt :: rest)
+  -- after the loop: `nxt_comp in (">", ">=") and version > nxt_constraint.version`
+  | _, [.mk c v] => .ok (c.isLower && o.gt x v)
+  | _, [.star] => .ok false
+  | first, .mk c v :: .mk d w :: rest =>
+      if first && (c.isUpper && o.lt x v) then .ok true
+      else if c.isLower && d.isUpper then
+        if o.gt x v && o.lt x w then .ok true else scanLoop o x false (.mk d w :: rest)
+      else if c.isUpper && d.isLower then scanLoop o x false (.mk d w :: rest)
       else .error .InvalidConstraintsError
+  -- a star comparator is in none of the tuples tested by the loop body
+  | first, .mk c v :: .star :: _ =>
+      if first && (c.isUpper && o.lt x v) then .ok true else .error .InvalidConstraintsError
+  | _, .star :: _ :: _ => .error .InvalidConstraintsError
+
+/-- `"!=" in constraint.comparator` (substring test; the star comparator is "*") -/
+def Con.hasNeSub : Con V → Bool
+  | .mk k _ => k.hasNeSub
+  | .star => false
+
+/-- `"=" in constraint.comparator` -/
+def Con.hasEqChar : Con V → Bool
+  | .mk k _ => k.hasEqChar
+  | .star => false
+
+/-- the end of `contains_version`, on the list `bs` that is left once "=" and "!=" are
+filtered out of `cs` -/
+def containsBounds (o : VOps V) (x : V) (cs bs : List (Con V)) : Except Err Bool :=
+  match bs with
+  | [] =>
+      -- FIXED CODE (fix: ranges made only of "!=" constraints): `unequal_only`
+      .ok (!cs.isEmpty && cs.all (fun c => c.isNe))
+  | [c] => .ok (c.sat o x)
+  | _ => scanLoop o x true bs
+
+/-- `contains_version` after the single-constraint shortcut -/
+def containsMulti (o : VOps V) (x : V) (cs : List (Con V)) : Except Err Bool :=
+  if cs.any (fun c => c.hasNeSub && c.verEq o x) then .ok false
+  else if cs.any (fun c => c.hasEqChar && c.verEq o x) then .ok true
+  else containsBounds o x cs (cs.filter (fun c => !(c.isEq || c.isNe)))
 
 /-- `contains_version(version, constraints)` -/
 def containsVersion (o : VOps V) (x : V) (cs : List (Con V)) : Except Err Bool :=
   match cs with
   | [c] => .ok (c.sat o x)
-  | _ =>
-    if cs.any (fun c => (match c with | .mk k _ => k.hasNeSub | .star => false) && c.verEq o x) then
-      .ok false
-    else if cs.any (fun c => (match c with | .mk k _ => k.hasEqChar | .star => false) && c.verEq o x) then
-      .ok true
-    else
-      let bs := cs.filter (fun c => !(c.isEq || c.isNe))
-      match bs with
-      | [] =>
-          -- FIXED CODE (fix: ranges made only of "!=" constraints): nothing is left after
-          -- the filter; when every constraint is "!=" the version is in the range.
-          .ok (!cs.isEmpty && cs.all (fun c => c.isNe))
-      | [c] => .ok (c.sat o x)
-      | _ => scanLoop o x true bs
+  | _ => containsMulti o x cs
 
 /-! ### sorting: `VersionConstraint.__lt__` and `sorted` / `list.sort` -/
 
@@ -176,7 +186,11 @@ def containsVersion (o : VOps V) (x : V) (cs : List (Con V)) : Except Err Bool :
 non-star constraints: the first element that is not `==` decides. -/
 def conLt (o : VOps V) : Con V → Con V → Bool
   | .mk c u, .mk d w => if o.eq u w then c.strRank < d.strRank else o.lt u w
-  | a, b => a.strRank < b.strRank   -- both versions `None` (only reached for star/star)
+  | .star, .star => false      -- `(None, "*") < (None, "*")`
+  -- `None < version` raises TypeError: `sortCons` never evaluates these two cases (it returns
+  -- the error first); the values only make the comparison a total preorder on `Con V`.
+  | .star, .mk _ _ => true
+  | .mk _ _, .star => false
 
 /-- `sorted(constraints)`: a stable sort that only calls `__lt__`.  A star together with a
 versioned constraint makes the comparison `None < Version` raise `TypeError`. -/
